@@ -26,6 +26,9 @@ CHECKS = {
  "C07": ("exploration", "differential round-trip monitor with structural-isomorphism oracle over generated values",
    "Encode/Decode of the real codec on an exhaustive (container kind x size class x nesting position) matrix, every integer 0..70000 and all width boundaries, string length classes, aliasing/cycle patterns and PRNG-generated nested values; the oracle compares type, structure, order and sharing.",
    "Trusts the value generator and the isomorphism walk; tuples compared structurally; host-pickled objects never in cycles.", "DESIGN.md §5 C07"),
+ "C08": ("exploration", "crash/outcome monitor over generated Starlark programs built in fresh child processes, stamp comparison across loads, mutation-detection oracle via the execution log",
+   "Generated BUILD files combining up to 6 of 27 features (recursion, mutual recursion, closures, defaults, lambdas, comprehensions, every predeclared value, large and deeply nested data, ...): first build, second build of identical text (nothing may run, stamps equal), identical text in another directory, then mutations of something the function references (each must re-execute). Fatal errors are attributed through the journal. Exotic constructs live in named scenarios (two are known findings).",
+   "A nested closure that refers to itself through a cell makes the interpreter dawn depends on overflow its stack while freezing module globals (the module does not load): counted, not reported.", "DESIGN.md §5 C08"),
  "C09": ("exploration", "shadow-state monitor of the gate under its own mutex (hook) + harness occupancy counter, limits via CPU affinity",
    "Wide fans and meshes at limits 1,2,3,4,8,16: the number of targets inside LoadTarget/Evaluate but outside EvaluateTargets never exceeds the limit, shadow capacity stays in [0,limit], acquisitions = releases and capacity restored at quiescence; evidence counts how often the limit was reached.",
    "Trusts the hook placement (inside gate.enter/exit under g.m) and that taskset sets runtime.NumCPU (asserted in the child).", "DESIGN.md §5 C09"),
@@ -44,12 +47,18 @@ CHECKS = {
  "C14": ("exploration", "twin-history comparison + byte comparison of record files around GC",
    "GC (after a full or index-preferring load) inserted at random points of one of two otherwise identical histories; records of existing labels survive byte-identical, records of removed labels and planted temporaries disappear, nothing outside .dawn/build changes, later builds execute the same bodies in both twins.",
    "Expected record paths mirror dawn's path scheme (url.PathEscape of package/name).", "DESIGN.md §5 C14"),
+ "C15": ("fault_enumeration", "exhaustive byte-substitution/truncation fault enumeration of valid encodings in journaled children + corruption enumeration of persisted records followed by real Load+Run",
+   "Decoder: every (position, byte) substitution and every truncation of ~50 valid encodings incl. real function-environment stamps, plus structure-aware splices and grammar-generated opcode programs; each input is written to disk before the call so that a fatal error names it; the result must be an error or a non-nil value that is safe to use. Records: JSON-level and stamp-level corruptions, truncations, wrong types, dependency-stamp edits and index.json corruptions of a built project, each followed by Load+Run in a journaled child; outcome classes load error / build error / re-executed / semantically equal / crash / silently up to date.",
+   "Well-formed is read weakly (non-nil, safe to use). Semantic equality of a corrupted stamp is decided with a 40-line mirror of dawn's environment unpickler.", "DESIGN.md §5 C15"),
  "C16": ("exploration", "reconstruction oracle walking returned diff objects, over exhaustive short sequences and generated/mutated value pairs",
    "Diff(a,b) on all pairs of words over {a,b} up to length 4 as string/bytes/tuple/list, generated nested values paired with mutated copies and unrelated values, and large pairs crossing the route-size fallback; all failed assertions of a case are reported. The rebuild reason of TargetEvaluating is checked against the delivered diff on generated project edits.",
    "Trusts starlark.EqualDepth as the notion of equality.", "DESIGN.md §5 C16"),
  "C17": ("exploration", "differential monitor against an independent recursive matcher; glob() and ignore lists on generated trees",
    "Every single pattern up to 3/4 tokens against every path up to 4/5 characters (exhaustive), sampled lists of 2-3 patterns and longer random patterns, plus the glob() builtin and the ignore list on generated directory trees of a loaded project.",
    "Unescaped [ ] and empty paths are outside the grammar.", "DESIGN.md §5 C17"),
+ "C18": ("exploration", "offline trace checker (per-label finite-state grammar + run-level rules) over event logs recorded through dawn.Events and the run(callback=) channel; race detector",
+   "Generated projects with emitting bodies (PRNG-chunked text through the real lineWriter), failing bodies, missing and cyclic dependencies, dry runs, two Runs on one loaded project, and every chunking of 8 short texts; a recorder logs all events under one mutex and the checker applies U | E P* S | E P* F | F per label, the RunDone rules, line equality, 'evaluating iff the body ran'.",
+   "Events are snapshotted after Run returns (and after a short settle period when Run failed).", "DESIGN.md §5 C18"),
  "C19": ("exploration", "round-trip monitor (deep comparison + byte comparison) over generated configurations",
    "Write/Load/Write on configs with hostile strings (quotes, control characters, Unicode, TOML-significant text, the empty string) in every position.",
    "Strings are valid UTF-8.", "DESIGN.md §5 C19"),
@@ -61,7 +70,7 @@ PENDING = {}
 for i in range(1, 21):
     pid = "C%02d" % i
     if pid not in CHECKS:
-        PENDING[pid] = "check under construction in this session (see DESIGN.md §5); not yet claimed"
+        PENDING[pid] = "not claimed"
 
 hooks_commits = subprocess.run(["git", "-C", "/repo", "log", "--format=%H %s"], capture_output=True, text=True).stdout.splitlines()
 hook_shas = [l.split()[0] for l in hooks_commits if l.split(" ", 1)[1].startswith("verif hooks:")]
